@@ -168,16 +168,14 @@ t=sub(t,'fn balance(mut node: Rc<Node<V>>) -> Rc<Node<V>> {','''#[verifier::spin
         ensures
             tb(Some(res)),
             view(Some(res)) == view(Some(node)), nsz(Some(res)) == nsz(Some(node)),
-            near(nsz(lft(Some(node))), nsz(rgt(Some(node)))) ==> bal(Some(res)),
+            rot_ok_t(Some(node)) ==> bal(Some(res)),
     {
         let ghost node0 = node;
         let ghost (glo, ghi) = choose|lo: int, hi: int| #[trigger] bst(Some(node), lo, hi);
         proof { lemma_bst_u32(Some(node), glo, ghi); assert(is_data(Some(node))); 
                 assert(bst(lft(Some(node)), glo, dn(Some(node)).key as int)); assert(bst(rgt(Some(node)), dn(Some(node)).key as int, ghi)); }''')
 t=sub(t,'''        if right_weight > DELTA * left_weight {''','''        proof {
-            if near(nsz(lft(Some(node0))), nsz(rgt(Some(node0)))) && !((right_weight as int) > 3 * (left_weight as int)) && !((left_weight as int) > 3 * (right_weight as int)) {
-                lemma_near_bal(nsz(lft(Some(node0))), nsz(rgt(Some(node0))));
-            }
+            reveal(rot_ok);
             let r = rgt(Some(node0)); let l = lft(Some(node0));
             if r is Some { assert(is_data(r)); assert(bst(lft(r), dn(Some(node0)).key as int, dn(r).key as int)); assert(bst(rgt(r), dn(r).key as int, ghi)); }
             if l is Some { assert(is_data(l)); assert(bst(lft(l), glo, dn(l).key as int)); assert(bst(rgt(l), dn(l).key as int, dn(Some(node0)).key as int)); }
@@ -211,7 +209,7 @@ t=sub(t,'''                        data_node.right = data_node.right.take().map(
                         assert(is_data(rr1));
                         assert(bal(rr1) == (wbal(nsz(lft(rr1)), nsz(rgt(rr1))) && bal(lft(rr1)) && bal(rgt(rr1))));
                         let l = lft(Some(node0)); let rl = lft(r0); let rr = rgt(r0);
-                        if near(nsz(l), nsz(r0)) { lemma_double_l(nsz(l), nsz(lft(rl)), nsz(rgt(rl)), nsz(rr)); }
+                        reveal(rot_ok);
                     }
 ''')
 t=sub(t,'''                        data_node.left = data_node.left.take().map(Self::rotate_left);
@@ -232,21 +230,21 @@ t=sub(t,'''                        data_node.left = data_node.left.take().map(Se
                         assert(is_data(ll1));
                         assert(bal(ll1) == (wbal(nsz(lft(ll1)), nsz(rgt(ll1))) && bal(lft(ll1)) && bal(rgt(ll1))));
                         let r = rgt(Some(node0)); let lr = rgt(l0); let ll = lft(l0);
-                        if near(nsz(l0), nsz(r)) { lemma_double_r(nsz(r), nsz(rgt(lr)), nsz(lft(lr)), nsz(ll)); }
+                        reveal(rot_ok);
                     }
 ''')
 t=sub(t,'''                    // Single rotation
                     Self::rotate_left(node)''','''                    // Single rotation
                     proof {
                         let l = lft(Some(node0)); let r = rgt(Some(node0));
-                        if near(nsz(l), nsz(r)) { lemma_single_l(nsz(l), nsz(lft(r)), nsz(rgt(r))); }
+                        reveal(rot_ok);
                     }
                     Self::rotate_left(node)''')
 t=sub(t,'''                    // Single rotation
                     Self::rotate_right(node)''','''                    // Single rotation
                     proof {
                         let l = lft(Some(node0)); let r = rgt(Some(node0));
-                        if near(nsz(l), nsz(r)) { lemma_single_r(nsz(r), nsz(rgt(l)), nsz(lft(l))); }
+                        reveal(rot_ok);
                     }
                     Self::rotate_right(node)''')
 open('balance_dbg.txt','w').write(t)
@@ -328,20 +326,383 @@ t=sub(t,'''        let balanced_node = if old_value.is_none() {''','''        pr
             assert(nsz(node0) == 1 + nsz(lft(node0)) + nsz(rgt(node0)));
             if old_value is None {
                 assert(near(nsz(lft(Some(node))), nsz(rgt(Some(node))))) by { reveal(near); }
+                assert(tb(Some(node)));
+                lemma_near_rot_ok_t(Some(node));
             } else {
                 assert(bal(Some(node)) == (wbal(nsz(lft(Some(node))), nsz(rgt(Some(node)))) && bal(lft(Some(node))) && bal(rgt(Some(node)))));
             }
         }
         let balanced_node = if old_value.is_none() {''')
 out.append(t)
+
+# ---- remove_min (391-440)
+t=L(391,440)
+t=sub(t,'fn remove_min(mut node: Rc<Node<V>>) -> (u32, V, Option<Rc<Node<V>>>) {','''#[verifier::spinoff_prover] fn remove_min(mut node: Rc<Node<V>>) -> (res: (u32, V, Option<Rc<Node<V>>>))
+        requires tb(Some(node)), bal(Some(node)),
+        ensures view(Some(node)).contains_key(res.0), view(Some(node))[res.0] == res.1,
+            forall|x: u32| #[trigger] view(Some(node)).contains_key(x) ==> res.0 <= x,
+            tb(res.2), bal(res.2), view(res.2) == view(Some(node)).remove(res.0), nsz(res.2) + 1 == nsz(Some(node)),
+        decreases Some(node),
+    {
+        let ghost node0: Tree<V> = Some(node);
+        let ghost glo: int = -1; let ghost ghi: int = 0x1_0000_0000;
+        proof {
+            let (l0, h0) = choose|lo: int, hi: int| #[trigger] bst(node0, lo, hi);
+            lemma_bst_u32(node0, l0, h0);
+            lemma_bst_widen(node0, if l0 < -1 { -1 } else { l0 }, if h0 > 0x1_0000_0000 { 0x1_0000_0000 } else { h0 }, glo, ghi);
+            assert(is_data(node0));
+            lemma_view_dom(lft(node0), glo, dn(node0).key as int);
+            lemma_view_dom(rgt(node0), dn(node0).key as int, ghi);
+            assert(bal(node0) == (wbal(nsz(lft(node0)), nsz(rgt(node0))) && bal(lft(node0)) && bal(rgt(node0))));
+            assert(bst(lft(node0), glo, dn(node0).key as int)); assert(bst(rgt(node0), dn(node0).key as int, ghi));
+            assert(tb(lft(node0))); assert(tb(rgt(node0)));
+            assert(view(node0) == view(lft(node0)).union_prefer_right(view(rgt(node0))).insert(dn(node0).key, dn(node0).value));
+            assert(nsz(node0) == 1 + nsz(lft(node0)) + nsz(rgt(node0)));
+        }''')
+t=sub(t,'''                    return (key, value, right);''','''                    proof {
+                        assert(view::<V>(None) =~= Map::empty());
+                        assert(view(right) =~= view(node0).remove(key));
+                    }
+                    return (key, value, right);''')
+t=sub(t,'''            data_node.left = new_left;
+            data_node.update_size_internal();''','''            data_node.left = new_left;
+            proof { lemma_tb_bounds(new_left, glo, dn(node0).key as int); }
+            data_node.update_size_internal();''')
+t=sub(t,'''        let balanced_node = Self::balance(node);''','''        proof {
+            assert(is_data(Some(node)));
+            assert(bst(Some(node), glo, ghi));
+            assert(view(Some(node)) =~= view(node0).remove(min_key));
+            assert(nsz(Some(node)) == 1 + nsz(lft(Some(node))) + nsz(rgt(Some(node))));
+            assert(near(nsz(lft(Some(node))), nsz(rgt(Some(node))))) by { reveal(near); }
+            assert(tb(Some(node)));
+            lemma_near_rot_ok_t(Some(node));
+        }
+        let balanced_node = Self::balance(node);''')
+out.append(t)
+
+
+# ---- remove_existing_node (442-533)
+t=L(442,533)
+t=sub(t,'fn remove_existing_node(mut node: Rc<Node<V>>, key: &u32) -> (Option<Rc<Node<V>>>, V) {','''#[verifier::spinoff_prover] fn remove_existing_node(mut node: Rc<Node<V>>, key: &u32) -> (res: (Option<Rc<Node<V>>>, V))
+        requires tb(Some(node)), bal(Some(node)), view(Some(node)).contains_key(*key),
+        ensures tb(res.0), bal(res.0), view(res.0) == view(Some(node)).remove(*key), res.1 == view(Some(node))[*key],
+            nsz(res.0) + 1 == nsz(Some(node)),
+        decreases Some(node),
+    {
+        let ghost node0: Tree<V> = Some(node);
+        let ghost glo: int = -1; let ghost ghi: int = 0x1_0000_0000;
+        proof {
+            let (l0, h0) = choose|lo: int, hi: int| #[trigger] bst(node0, lo, hi);
+            lemma_bst_u32(node0, l0, h0);
+            lemma_bst_widen(node0, if l0 < -1 { -1 } else { l0 }, if h0 > 0x1_0000_0000 { 0x1_0000_0000 } else { h0 }, glo, ghi);
+            assert(is_data(node0));
+            lemma_view_dom(lft(node0), glo, dn(node0).key as int);
+            lemma_view_dom(rgt(node0), dn(node0).key as int, ghi);
+            assert(bal(node0) == (wbal(nsz(lft(node0)), nsz(rgt(node0))) && bal(lft(node0)) && bal(rgt(node0))));
+            assert(bst(lft(node0), glo, dn(node0).key as int)); assert(bst(rgt(node0), dn(node0).key as int, ghi));
+            assert(tb(lft(node0))); assert(tb(rgt(node0)));
+            assert(view(node0) == view(lft(node0)).union_prefer_right(view(rgt(node0))).insert(dn(node0).key, dn(node0).value));
+            assert(nsz(node0) == 1 + nsz(lft(node0)) + nsz(rgt(node0)));
+            assert(view::<V>(None) =~= Map::empty());
+        }''')
+# Equal case, two children: after remove_min(right)
+t=sub(t,'''                                let mut new_data_node = DataNode {''','''                                proof {
+                                    lemma_view_dom(Some(right), dn(node0).key as int, ghi);
+                                    lemma_tb_bounds(new_right, min_key as int, ghi);
+                                    lemma_min_max(Some(left), glo, dn(node0).key as int, glo, min_key as int);
+                                    lemma_bst_u32(Some(left), glo, min_key as int); lemma_bst_u32(new_right, min_key as int, ghi);
+                                }
+                                let mut new_data_node = DataNode {''')
+t=sub(t,'''                                Some(Self::balance(Rc::new(Node::Data(new_data_node))))''','''                                proof {
+                                    assert forall|rc: Rc<Node<V>>| *rc == Node::Data(new_data_node) implies
+                                        #[trigger] tb(Some(rc)) && bal(lft(Some(rc))) && bal(rgt(Some(rc))) && view(Some(rc)) =~= view(node0).remove(*key)
+                                        && nsz(Some(rc)) + 1 == nsz(node0) && near(nsz(lft(Some(rc))), nsz(rgt(Some(rc)))) by {
+                                        assert(bst(Some(rc), glo, ghi));
+                                        reveal(near);
+                                    }
+                                    assert forall|rc: Rc<Node<V>>| *rc == Node::Data(new_data_node) implies
+                                        #[trigger] rot_ok_t(Some(rc)) by { assert(tb(Some(rc))); assert(bal(lft(Some(rc))) && bal(rgt(Some(rc)))); lemma_near_rot_ok_t(Some(rc)); }
+                                    assert forall|rc: Rc<Node<V>>| *rc == Node::Data(new_data_node) implies
+                                        #[trigger] bal(lft(Some(rc))) && bal(rgt(Some(rc))) by { assert(tb(Some(rc))); }
+                                }
+                                Some(Self::balance(Rc::new(Node::Data(new_data_node))))''')
+t=sub(t,'''                        return (new_node, value);''','''                        proof {
+                            assert(view(new_node) =~= view(node0).remove(*key));
+                            assert(bal::<V>(None)); assert(bal(lft(node0))); assert(bal(rgt(node0)));
+                            if lft(node0) is None { assert(bal(new_node)); } else if rgt(node0) is None { assert(bal(new_node)); } else { assert(tb(new_node)); assert(nsz(new_node) + 1 == nsz(node0)); assert(bal(new_node)); }
+                        }
+                        return (new_node, value);''')
+# Less
+t=sub(t,'''                            data_node.left = new_left;
+                            data_node.update_size_internal();''','''                            data_node.left = new_left;
+                            proof { lemma_tb_bounds(new_left, glo, dn(node0).key as int); }
+                            data_node.update_size_internal();
+                            proof {
+                                assert(is_data(Some(node)));
+                                assert(bst(Some(node), glo, ghi));
+                                assert(view(Some(node)) =~= view(node0).remove(*key));
+                                assert(nsz(Some(node)) == 1 + nsz(lft(Some(node))) + nsz(rgt(Some(node))));
+                                assert(near(nsz(lft(Some(node))), nsz(rgt(Some(node))))) by { reveal(near); }
+                                assert(tb(Some(node)));
+                                lemma_near_rot_ok_t(Some(node));
+                            }''')
+t=sub(t,'''                            data_node.right = new_right;
+                            data_node.update_size_internal();''','''                            data_node.right = new_right;
+                            proof { lemma_tb_bounds(new_right, dn(node0).key as int, ghi); }
+                            data_node.update_size_internal();
+                            proof {
+                                assert(is_data(Some(node)));
+                                assert(bst(Some(node), glo, ghi));
+                                assert(view(Some(node)) =~= view(node0).remove(*key));
+                                assert(nsz(Some(node)) == 1 + nsz(lft(Some(node))) + nsz(rgt(Some(node))));
+                                assert(near(nsz(lft(Some(node))), nsz(rgt(Some(node))))) by { reveal(near); }
+                                assert(tb(Some(node)));
+                                lemma_near_rot_ok_t(Some(node));
+                            }''')
+out.append(t)
+
+
+# ---- unwrap_to_data (93-101)
+t=L(93,101)
+t=sub(t,'fn unwrap_to_data(node: Rc<Node<V>>) -> DataNode<V> {','''fn unwrap_to_data(node: Rc<Node<V>>) -> (res: DataNode<V>)
+        requires tb(Some(node)),
+        ensures res == dn(Some(node)),
+        decreases Some(node),
+    {
+        proof { assert(is_data(Some(node))); }''')
+out.append(t)
+# ---- join (566-611)
+t=L(566,611)
+t=sub(t,'''    ) -> Option<Rc<Node<V>>> {''','''    ) -> (res: Option<Rc<Node<V>>>)
+        requires tb(left), bal(left), tb(right), bal(right),
+            forall|x: u32| #[trigger] view(left).contains_key(x) ==> x < key,
+            forall|x: u32| #[trigger] view(right).contains_key(x) ==> key < x,
+        ensures tb(res), bal(res), res is Some,
+            view(res) == view(left).union_prefer_right(view(right)).insert(key, value),
+            nsz(res) == nsz(left) + nsz(right) + 1,
+        decreases nsz(left) + nsz(right),
+    {
+        let ghost glo: int = -1; let ghost ghi: int = 0x1_0000_0000;
+        proof {
+            lemma_tb_bounds_u32(left); lemma_tb_bounds_u32(right);
+            lemma_tb_bounds(left, glo, key as int); lemma_tb_bounds(right, key as int, ghi);
+            lemma_bst_u32(left, glo, key as int); lemma_bst_u32(right, key as int, ghi);
+            lemma_bal_unfold(left); lemma_bal_unfold(right);
+        }
+        let ghost left0 = left; let ghost right0 = right;''')
+t=sub(t,'''                    let new_left = Self::join(left, key, value, r_left);''','''                    proof { assert(r_left == lft(right0) && r_right == rgt(right0) && r_key == dn(right0).key);
+                        assert forall|x: u32| #[trigger] view(r_left).contains_key(x) implies key < x by { assert(view(right0).contains_key(x)); }
+                        assert forall|x: u32| #[trigger] view(r_right).contains_key(x) implies key < x by { assert(view(right0).contains_key(x)); }
+                        assert(view(right0).contains_key(r_key)); }
+                    let new_left = Self::join(left, key, value, r_left);
+                    proof {
+                        lemma_tb_bounds(new_left, glo, r_key as int);
+                        lemma_tb_bounds(r_right, r_key as int, ghi);
+                    }''')
+t=sub(t,'''                    let new_node = Self::new_data_node(r_key, r_value, new_left, r_right);''','''                    let new_node = Self::new_data_node(r_key, r_value, new_left, r_right);
+                    proof {
+                        assert(bst(Some(new_node), glo, ghi));
+                        assert(tb(Some(new_node)));
+                        assert(view(Some(new_node)) =~= view(left0).union_prefer_right(view(right0)).insert(key, value));
+                        assert(nsz(Some(new_node)) == nsz(left0) + nsz(right0) + 1);
+                        lemma_bal_unfold(new_left); lemma_bal_unfold(rgt(new_left)); lemma_bal_unfold(lft(new_left));
+                        lemma_join_r_rot_ok(nsz(left0), nsz(r_left), nsz(r_right), nsz(lft(new_left)), nsz(rgt(new_left)),
+                            nsz(lft(rgt(new_left))), nsz(rgt(rgt(new_left))),
+                            nsz(lft(r_right)), nsz(rgt(r_right)), nsz(lft(lft(r_right))), nsz(rgt(lft(r_right))));
+                        assert(rot_ok_t(Some(new_node)));
+                    }''')
+t=sub(t,'''                    let new_right = Self::join(l_right, key, value, right);''','''                    proof { assert(l_left == lft(left0) && l_right == rgt(left0) && l_key == dn(left0).key);
+                        assert forall|x: u32| #[trigger] view(l_right).contains_key(x) implies x < key by { assert(view(left0).contains_key(x)); }
+                        assert forall|x: u32| #[trigger] view(l_left).contains_key(x) implies x < key by { assert(view(left0).contains_key(x)); }
+                        assert(view(left0).contains_key(l_key)); }
+                    let new_right = Self::join(l_right, key, value, right);
+                    proof {
+                        lemma_tb_bounds(new_right, l_key as int, ghi);
+                        lemma_tb_bounds(l_left, glo, l_key as int);
+                    }''')
+t=sub(t,'''                    let new_node = Self::new_data_node(l_key, l_value, l_left, new_right);''','''                    let new_node = Self::new_data_node(l_key, l_value, l_left, new_right);
+                    proof {
+                        assert(bst(Some(new_node), glo, ghi));
+                        assert(tb(Some(new_node)));
+                        assert(view(Some(new_node)) =~= view(left0).union_prefer_right(view(right0)).insert(key, value));
+                        assert(nsz(Some(new_node)) == nsz(left0) + nsz(right0) + 1);
+                        lemma_bal_unfold(new_right); lemma_bal_unfold(rgt(new_right)); lemma_bal_unfold(lft(new_right));
+                        lemma_join_l_rot_ok(nsz(right0), nsz(l_right), nsz(l_left), nsz(lft(new_right)), nsz(rgt(new_right)),
+                            nsz(lft(lft(new_right))), nsz(rgt(lft(new_right))),
+                            nsz(lft(l_left)), nsz(rgt(l_left)), nsz(lft(rgt(l_left))), nsz(rgt(rgt(l_left))));
+                        assert(rot_ok_t(Some(new_node)));
+                    }''')
+t=sub(t,'''            let new_node = Self::new_data_node(key, value, left, right);''','''            let new_node = Self::new_data_node(key, value, left, right);
+            proof {
+                assert(bst(Some(new_node), glo, ghi));
+                assert(tb(Some(new_node)));
+                assert(nsz(Some(new_node)) == nsz(left0) + nsz(right0) + 1);
+                lemma_join_mid_rot_ok(nsz(left0), nsz(right0), nsz(lft(right0)), nsz(rgt(right0)), nsz(lft(lft(right0))), nsz(rgt(lft(right0))),
+                    nsz(lft(left0)), nsz(rgt(left0)), nsz(lft(rgt(left0))), nsz(rgt(rgt(left0))));
+                assert(rot_ok_t(Some(new_node)));
+            }''')
+out.append(t)
+
+
+# ---- split (535-564)
+t=L(535,564)
+t=sub(t,'''    ) -> (Option<Rc<Node<V>>>, Option<V>, Option<Rc<Node<V>>>) {''','''    ) -> (res: (Option<Rc<Node<V>>>, Option<V>, Option<Rc<Node<V>>>))
+        requires tb(node), bal(node),
+        ensures tb(res.0), bal(res.0), tb(res.2), bal(res.2),
+            split_lo(view(node), view(res.0), *key), split_hi(view(node), view(res.2), *key),
+            res.1 == (if view(node).contains_key(*key) { Some(view(node)[*key]) } else { None::<V> }),
+            nsz(res.0) + nsz(res.2) <= nsz(node),
+        decreases node,
+    {
+        proof { lemma_bal_unfold(node); }
+        let ghost node0 = node;''')
+t=sub(t,'''                        let joined_right = Self::join(new_right, node_key, node_value, right);''','''                        proof {
+                            assert forall|x: u32| #[trigger] view(new_right).contains_key(x) implies x < node_key by { assert(view(left).contains_key(x)); }
+                        }
+                        let joined_right = Self::join(new_right, node_key, node_value, right);
+                        proof {
+                            assert(split_lo(view(node0), view(new_left), *key));
+                            assert(split_hi(view(node0), view(joined_right), *key));
+                        }''')
+t=sub(t,'''                        let joined_left = Self::join(left, node_key, node_value, new_left);''','''                        proof {
+                            assert forall|x: u32| #[trigger] view(new_left).contains_key(x) implies node_key < x by { assert(view(right).contains_key(x)); }
+                        }
+                        let joined_left = Self::join(left, node_key, node_value, new_left);
+                        proof {
+                            assert(split_lo(view(node0), view(joined_left), *key));
+                            assert(split_hi(view(node0), view(new_right), *key));
+                        }''')
+out.append(t)
+# ---- join_without_key (722-726)
+t=L(722,726)
+t=sub(t,'fn join_without_key(left: Rc<Node<V>>, right: Rc<Node<V>>) -> Option<Rc<Node<V>>> {','''fn join_without_key(left: Rc<Node<V>>, right: Rc<Node<V>>) -> (res: Option<Rc<Node<V>>>)
+        requires tb(Some(left)), bal(Some(left)), tb(Some(right)), bal(Some(right)),
+            forall|x: u32, y: u32| #[trigger] view(Some(left)).contains_key(x) && #[trigger] view(Some(right)).contains_key(y) ==> x < y,
+        ensures tb(res), bal(res), view(res) == view(Some(left)).union_prefer_right(view(Some(right))),
+            nsz(res) == nsz(Some(left)) + nsz(Some(right)),
+    {''')
+t=sub(t,'''        Self::join(Some(left), min_key, min_value, new_right)''','''        proof {
+            assert forall|x: u32| #[trigger] view(new_right).contains_key(x) implies min_key < x by { assert(view(Some(right)).contains_key(x)); }
+            assert(view(Some(left)).union_prefer_right(view(new_right)).insert(min_key, min_value) =~= view(Some(left)).union_prefer_right(view(Some(right))));
+        }
+        Self::join(Some(left), min_key, min_value, new_right)''')
+out.append(t)
+
+
+# ---- union (613-668)
+t=L(613,668)
+t=sub(t,'''    ) -> Option<Rc<Node<V>>>
+    where
+        F: FnMut(&u32, V, V) -> V,
+    {''','''    ) -> (res: Option<Rc<Node<V>>>)
+    where
+        F: FnMut(&u32, V, V) -> V,
+        requires tb(left), bal(left), tb(right), bal(right),
+            forall|m: F, k: &u32, a: V, b: V| #[trigger] m.requires((k, a, b)),
+        ensures tb(res), bal(res),
+            forall|x: u32| #[trigger] view(res).contains_key(x) <==> (view(left).contains_key(x) || view(right).contains_key(x)),
+            forall|x: u32| view(left).contains_key(x) && !view(right).contains_key(x) ==> #[trigger] view(res)[x] == view(left)[x],
+            forall|x: u32| !view(left).contains_key(x) && view(right).contains_key(x) ==> #[trigger] view(res)[x] == view(right)[x],
+            forall|x: u32| view(left).contains_key(x) && view(right).contains_key(x) ==> exists|m: F| m.ensures((&x, view(left)[x], view(right)[x]), #[trigger] view(res)[x]),
+        decreases nsz(left) + nsz(right),
+    {
+        proof { lemma_bal_unfold(left); lemma_bal_unfold(right); }
+        let ghost left0 = left; let ghost right0 = right;''')
+out.append(t)
+
 out.append('}')
 out.append('''
+pub proof fn lemma_tb_bounds_u32<V: Clone>(t: Tree<V>)
+    requires tb(t)
+    ensures bst(t, -1, 0x1_0000_0000), nsz(t) <= 0x1_0000_0000
+{
+    let (l0, h0) = choose|lo: int, hi: int| #[trigger] bst(t, lo, hi);
+    lemma_bst_u32(t, l0, h0);
+    lemma_bst_widen(t, if l0 < -1 { -1 } else { l0 }, if h0 > 0x1_0000_0000 { 0x1_0000_0000 } else { h0 }, -1, 0x1_0000_0000);
+}
 pub proof fn lemma_tb_bounds<V: Clone>(t: Tree<V>, lo: int, hi: int)
     requires tb(t), forall|k: u32| #[trigger] view(t).contains_key(k) ==> lo < k < hi
     ensures bst(t, lo, hi)
 {
     let (l2, h2) = choose|l2: int, h2: int| #[trigger] bst(t, l2, h2);
     lemma_min_max(t, l2, h2, lo, hi);
+}
+/// the weight-balance facts that make the result of `balance` balanced, as a function of the sizes of the
+/// subtrees it touches (mirrors the single/double choice of the code)
+#[verifier::opaque]
+pub open spec fn rot_ok(l: nat, r: nat, rl: nat, rr: nat, rll: nat, rlr: nat, ll: nat, lr: nat, lrl: nat, lrr: nat) -> bool {
+    if l + r < 2 { true }
+    else if r + 1 > 3 * (l + 1) {
+        if rl + 1 < 2 * (rr + 1) { wbal(l, rl) && wbal(l + rl + 1, rr) }
+        else { wbal(l, rll) && wbal(rlr, rr) && wbal(l + rll + 1, rlr + rr + 1) }
+    } else if l + 1 > 3 * (r + 1) {
+        if lr + 1 < 2 * (ll + 1) { wbal(lr, r) && wbal(ll, lr + r + 1) }
+        else { wbal(lrr, r) && wbal(ll, lrl) && wbal(ll + lrl + 1, lrr + r + 1) }
+    } else { true }
+}
+pub open spec fn rot_ok_t<V: Clone>(t: Tree<V>) -> bool {
+    rot_ok(nsz(lft(t)), nsz(rgt(t)), nsz(lft(rgt(t))), nsz(rgt(rgt(t))), nsz(lft(lft(rgt(t)))), nsz(rgt(lft(rgt(t)))),
+           nsz(lft(lft(t))), nsz(rgt(lft(t))), nsz(lft(rgt(lft(t)))), nsz(rgt(rgt(lft(t)))))
+}
+/// insertion / deletion of one element (Hirai-Yamamoto, <3,2> on weights)
+pub proof fn lemma_near_rot_ok(l: nat, r: nat, rl: nat, rr: nat, rll: nat, rlr: nat, ll: nat, lr: nat, lrl: nat, lrr: nat)
+    requires near(l, r),
+        r > 0 ==> r == rl + rr + 1 && wbal(rl, rr), rl > 0 ==> rl == rll + rlr + 1 && wbal(rll, rlr),
+        l > 0 ==> l == ll + lr + 1 && wbal(ll, lr), lr > 0 ==> lr == lrl + lrr + 1 && wbal(lrl, lrr),
+    ensures rot_ok(l, r, rl, rr, rll, rlr, ll, lr, lrl, lrr)
+{ reveal(near); reveal(rot_ok); }
+pub proof fn lemma_near_rot_ok_t<V: Clone>(t: Tree<V>)
+    requires tb(t), is_data(t), bal(lft(t)), bal(rgt(t)), near(nsz(lft(t)), nsz(rgt(t)))
+    ensures rot_ok_t(t)
+{
+    let (lo, hi) = choose|lo: int, hi: int| #[trigger] bst(t, lo, hi);
+    let l = lft(t); let r = rgt(t);
+    assert(bst(l, lo, dn(t).key as int)); assert(bst(r, dn(t).key as int, hi));
+    if r is Some { assert(is_data(r)); assert(bal(r) == (wbal(nsz(lft(r)), nsz(rgt(r))) && bal(lft(r)) && bal(rgt(r))));
+        assert(bst(lft(r), dn(t).key as int, dn(r).key as int));
+        let rl = lft(r); if rl is Some { assert(is_data(rl)); assert(bal(rl) == (wbal(nsz(lft(rl)), nsz(rgt(rl))) && bal(lft(rl)) && bal(rgt(rl)))); } else { assert(nsz(rl) == 0); } }
+    else { assert(nsz(r) == 0); }
+    if l is Some { assert(is_data(l)); assert(bal(l) == (wbal(nsz(lft(l)), nsz(rgt(l))) && bal(lft(l)) && bal(rgt(l))));
+        assert(bst(rgt(l), dn(l).key as int, dn(t).key as int));
+        let lr = rgt(l); if lr is Some { assert(is_data(lr)); assert(bal(lr) == (wbal(nsz(lft(lr)), nsz(rgt(lr))) && bal(lft(lr)) && bal(rgt(lr)))); } else { assert(nsz(lr) == 0); } }
+    else { assert(nsz(l) == 0); }
+    lemma_near_rot_ok(nsz(l), nsz(r), nsz(lft(r)), nsz(rgt(r)), nsz(lft(lft(r))), nsz(rgt(lft(r))), nsz(lft(l)), nsz(rgt(l)), nsz(lft(rgt(l))), nsz(rgt(rgt(l))));
+}
+/// join, right side heavy by sizes: T = (J, rr), J = join(l, k, rl) of size l+rl+1 with root split (a, b), b = (b1, b2)
+pub proof fn lemma_join_r_rot_ok(l: nat, rl: nat, rr: nat, a: nat, b: nat, b1: nat, b2: nat, x1: nat, x2: nat, x3: nat, x4: nat)
+    requires wbal(rl, rr), rl + rr + 1 > 3 * l, a + b + 1 == l + rl + 1, wbal(a, b), b > 0 ==> b == b1 + b2 + 1 && wbal(b1, b2),
+    ensures rot_ok(l + rl + 1, rr, x1, x2, x3, x4, a, b, b1, b2)
+{ reveal(rot_ok); }
+pub proof fn lemma_join_l_rot_ok(r: nat, lr: nat, ll: nat, a: nat, b: nat, a1: nat, a2: nat, x1: nat, x2: nat, x3: nat, x4: nat)
+    requires wbal(ll, lr), ll + lr + 1 > 3 * r, a + b + 1 == lr + r + 1, wbal(a, b), a > 0 ==> a == a1 + a2 + 1 && wbal(a1, a2),
+    ensures rot_ok(ll, lr + r + 1, a, b, a1, a2, x1, x2, x3, x4)
+{ reveal(rot_ok); }
+pub proof fn lemma_join_mid_rot_ok(l: nat, r: nat, x1: nat, x2: nat, x3: nat, x4: nat, x5: nat, x6: nat, x7: nat, x8: nat)
+    requires !(r > 3 * l), !(l > 3 * r)
+    ensures rot_ok(l, r, x1, x2, x3, x4, x5, x6, x7, x8), wbal(l, r)
+{ reveal(rot_ok); }
+/// sizes of the children / grandchildren of a balanced tree
+pub proof fn lemma_bal_unfold<V: Clone>(t: Tree<V>)
+    requires tb(t), bal(t)
+    ensures t is Some ==> is_data(t) && tb(lft(t)) && tb(rgt(t)) && bal(lft(t)) && bal(rgt(t)) && wbal(nsz(lft(t)), nsz(rgt(t)))
+                && nsz(t) == 1 + nsz(lft(t)) + nsz(rgt(t))
+                && view(t) == view(lft(t)).union_prefer_right(view(rgt(t))).insert(dn(t).key, dn(t).value)
+                && (forall|x: u32| #[trigger] view(lft(t)).contains_key(x) ==> x < dn(t).key)
+                && (forall|x: u32| #[trigger] view(rgt(t)).contains_key(x) ==> dn(t).key < x),
+            t is None ==> nsz(t) == 0 && view(t) =~= Map::<u32, V>::empty(),
+{
+    if t is Some {
+        let (lo, hi) = choose|lo: int, hi: int| #[trigger] bst(t, lo, hi);
+        assert(is_data(t));
+        assert(bst(lft(t), lo, dn(t).key as int)); assert(bst(rgt(t), dn(t).key as int, hi));
+        lemma_view_dom(lft(t), lo, dn(t).key as int); lemma_view_dom(rgt(t), dn(t).key as int, hi);
+    }
+}
+pub open spec fn split_lo<V>(m: Map<u32, V>, lo: Map<u32, V>, k: u32) -> bool {
+    forall|x: u32| (#[trigger] lo.contains_key(x) <==> (m.contains_key(x) && x < k)) && (lo.contains_key(x) ==> lo[x] == m[x])
+}
+pub open spec fn split_hi<V>(m: Map<u32, V>, hi: Map<u32, V>, k: u32) -> bool {
+    forall|x: u32| (#[trigger] hi.contains_key(x) <==> (m.contains_key(x) && k < x)) && (hi.contains_key(x) ==> hi[x] == m[x])
 }
 #[verifier::opaque]
 pub open spec fn near(l: nat, r: nat) -> bool {
@@ -455,28 +816,7 @@ t=sub(t,'''                                Ordering::Equal => return Some(&data_
                             } },''')
 out.append(t)
 
-t=L(781,817)   # get_mut
-t=sub(t,'pub fn get_mut(&mut self, key: &u32) -> Option<&mut V> {','''#[verifier::spinoff_prover] pub fn get_mut(&mut self, key: &u32) -> (r: Option<&mut V>)
-        requires old(self).wf(),
-        ensures
-            match r {
-                Some(v) => old(self)@.contains_key(*key) && *v == old(self)@[*key]
-                    && final(self)@ =~= old(self)@.insert(*key, *final(v)) && final(self).wf(),
-                None => !old(self)@.contains_key(*key) && final(self)@ =~= old(self)@ && final(self).wf(),
-            }
-    {''')
-t=sub(t,'        let mut current = &mut self.root;','''        let ghost root0 = self.root; let ghost len0 = self.len; let ghost k = *key; let ghost fself = *final(self);
-        let mut current = &mut self.root;''')
-t=sub(t,'        loop {','''        loop
-            invariant mappings@.len() == 0, tb(*current), bal(*current), tb(root0), bal(root0), len0 == nsz(root0), k == *key,
-                view(*current).contains_key(k) == view(root0).contains_key(k),
-                view(root0).contains_key(k) ==> view(*current)[k] == view(root0)[k],
-                okfin(*current, *final(current), k) ==> (
-                    fself.len == len0 && okfin(root0, fself.root, k)
-                    && (view(*current).contains_key(k) ==> view(fself.root)[k] == view(*final(current))[k])),
-            decreases *current,
-        {''')
-out.append(t)
+
 out.append('}')
 out.append('''
 pub proof fn lemma_keys_lt_len<V: Clone>(t: Tree<V>) ensures true {}
@@ -488,4 +828,4 @@ pub open spec fn okfin<V: Clone>(a: Tree<V>, b: Tree<V>, k: u32) -> bool {
 
 ''')
 out.append(open('tail.rs').read())
-open('t3.rs','w').write('\n'.join(out))
+open('t9.rs','w').write('\n'.join(out))
